@@ -4,6 +4,7 @@ import (
 	"encoding/json"
 	"fmt"
 	"hash/fnv"
+	"math"
 	"reflect"
 	"unsafe"
 
@@ -52,8 +53,14 @@ func (f Float32) Kind() Kind {
 
 // Hash calculates and returns the hash code.
 func (f Float32) Hash() uint64 {
+	value := f.value
+	if value != value {
+		value = math.Float32frombits(0x7FC00000) // all NaNs are equal: hash one canonical NaN
+	} else if value == 0 {
+		value = 0 // -0 equals +0: hash +0
+	}
 	h := fnv.New64a()
-	h.Write((*[4]byte)(unsafe.Pointer(&f.value))[:])
+	h.Write((*[4]byte)(unsafe.Pointer(&value))[:])
 	return h.Sum64()
 }
 
@@ -65,7 +72,7 @@ func (f Float32) Interface() any {
 // Equal checks whether two Float32 instances are equal.
 func (f Float32) Equal(other Value) bool {
 	if o, ok := other.(Float32); ok {
-		return f.value == o.value
+		return compare(f.value, o.value) == 0
 	}
 	return false
 }
@@ -108,8 +115,14 @@ func (f Float64) Kind() Kind {
 
 // Hash calculates and returns the hash code.
 func (f Float64) Hash() uint64 {
+	value := f.value
+	if value != value {
+		value = math.Float64frombits(0x7FF8000000000001) // all NaNs are equal: hash one canonical NaN
+	} else if value == 0 {
+		value = 0 // -0 equals +0: hash +0
+	}
 	h := fnv.New64a()
-	h.Write((*[8]byte)(unsafe.Pointer(&f.value))[:])
+	h.Write((*[8]byte)(unsafe.Pointer(&value))[:])
 	return h.Sum64()
 }
 
@@ -121,7 +134,7 @@ func (f Float64) Interface() any {
 // Equal checks whether two Float64 instances are equal.
 func (f Float64) Equal(other Value) bool {
 	if o, ok := other.(Float64); ok {
-		return f.value == o.value
+		return compare(f.value, o.value) == 0
 	}
 	return false
 }
